@@ -619,6 +619,23 @@ func (sc *SchedulerCache) RemoveNode(nodeName string) error {
 			klog.Errorf("delete numatopo <%s/%s> failed.", numaInfo.Namespace, numaInfo.Name)
 		}
 	}
+
+	// Pod events are independent of node events: the pods of a removed node stay in their jobs
+	// until their own delete events arrive. Keep them on a not-ready placeholder (the same entry
+	// addTask creates for a pod that arrives before its node), so that SetNode recomputes the
+	// ledger from them if the node is added again instead of starting from an empty NodeInfo.
+	if tasks := sc.Nodes[nodeName].Tasks; len(tasks) != 0 {
+		placeholder := schedulingapi.NewNodeInfo(nil)
+		placeholder.Name = nodeName
+		for _, task := range tasks {
+			if err := placeholder.AddTask(task); err != nil {
+				klog.Errorf("Failed to keep task <%s/%s> of removed node <%s>: %v", task.Namespace, task.Name, nodeName, err)
+			}
+		}
+		sc.Nodes[nodeName] = placeholder
+		return nil
+	}
+
 	delete(sc.Nodes, nodeName)
 	return nil
 }
